@@ -94,6 +94,22 @@ BadModify ==
                           pre |-> Roots(n, live), post |-> Roots(n, live) ]
             IN  Step(step, n, live, cached, stack, marks)
 
+\* a remembering verification that has to be refused: the honest proof of live
+\* leaves with one hash replaced by a fresh value (the first proof hash, or the
+\* first leaf hash).  A refused call changes nothing: whatever the call had
+\* stored before it found out must be gone again.
+BadVerify ==
+  /\ "badvrem" \in Acts
+  /\ \E S \in SUBSET live \ {{}} :
+       /\ Cardinality(S) <= 2
+       /\ LET ord == AscSeq(S)
+              pf  == CanonProof(n, live, ord)
+          IN  \E kind \in {"proofhash", "leafhash"} :
+                /\ (IF kind = "proofhash" THEN Len(pf.p) > 0 ELSE TRUE)
+                /\ LET step == [ a |-> "badvrem", s |-> ord, pf |-> JProof(pf), bad |-> kind,
+                                 post |-> Roots(n, live) ]
+                   IN  Step(step, n, live, cached, stack, marks)
+
 \* Verify(hashes, proof, remember = true) of an arbitrary set of live leaves
 VerifyRemember ==
   /\ "vrem" \in Acts
@@ -165,7 +181,7 @@ MissQ ==
        IN  /\ UNCHANGED vars
            /\ Emit(step, Obs(n, live, cached) @@ [pp |-> JPosSeq(pp)])
 
-Next == Modify \/ BadModify \/ VerifyRemember \/ Ingest \/ Prune \/ Undo \/ FromRoots \/ Restore \/ MissQ
+Next == Modify \/ BadModify \/ BadVerify \/ VerifyRemember \/ Ingest \/ Prune \/ Undo \/ FromRoots \/ Restore \/ MissQ
 Spec == Init /\ [][Next]_vars
 
 TypeOK == n \in 0..MaxN /\ live \subseteq 0..(n-1) /\ cached \subseteq live
